@@ -111,6 +111,17 @@ impl<TInner> Negotiated<TInner> {
         }
     }
 
+    /// Verification hook: which state the stream is in (0 = completed, 1 = still expecting the
+    /// confirmation of an optimistic negotiation, 2 = failed). Adds code only.
+    #[cfg(feature = "verif")]
+    pub fn verif_state(&self) -> u8 {
+        match self.state {
+            State::Completed { .. } => 0,
+            State::Expecting { .. } => 1,
+            State::Invalid => 2,
+        }
+    }
+
     pub fn inner(self) -> TInner {
         match self.state {
             State::Completed { io } => io,
